@@ -209,7 +209,7 @@ def span_kind(ctx, P, py, scope, py_mods=(), py_only=None, rule="SPAN-KIND", tus
     ctx.rule(rule, "a span is right minus left: no subtraction in this property's functions has a left coordinate as minuend and a "
                    "right coordinate of the same spelling family as subtrahend (`left - right` is the negated span), in C or Python")
     n = 0
-    for key in (tus or LIB_TUS):
+    for key in ((tus if tus is not None else LIB_TUS) if P is not None else []):
         tu = P.tus[key]
         for fn in tu.funcs.values():
             if not scope(key, fn.name) or fn.body is None:
@@ -357,3 +357,11 @@ def dict_atomic(ctx, P, rule="DICT-ATOMIC", floor=8):
                "`%s` converts an input after the table has been cleared: a bad argument leaves the table empty" % (callee(late[0]) or late[0].mac))
     ctx.floor(rule, floor)
     return n
+
+
+def py_lints(ctx, py, mods, only=None):
+    """the Python kind / width lints on one property's functions (called next to lib_py.unused_params with the same scope)"""
+    from . import lib_py
+    py_minmax_kind(ctx, py, mods, only=only)
+    span_kind(ctx, None, py, None, py_mods=mods, py_only=only, tus=[])
+    lib_py.py_width(ctx, py, mods, only=only)
